@@ -8,7 +8,36 @@ BR = sorted(n for n, (d, x) in REG.items() if x.__module__ == 'vf.ref.sem_br')
 EXTRA = ['ADR_A1', 'ADR_A2', 'ADR_T1', 'ADR_T2', 'ADR_T3', 'ADD_reg_A1', 'MOV_reg_A1', 'ADD_reg_T2', 'MOV_reg_T1', 'ADD_imm_A1', 'SUB_imm_A1',
          'LDR_lit_A1', 'LDR_lit_T1', 'LDR_lit_T2', 'LDR_imm_A1', 'LDR_reg_A1', 'POP_A1', 'POP_T1', 'POP_T2', 'LDM_A1', 'STR_imm_A1', 'PUSH_A1',
          'NOP_A1', 'NOP_T1', 'NOP_T2', 'MUL_A1', 'UXTB_T1', 'AND_imm_T1']
-ROWS = BR + [r for r in EXTRA if r in REG]
+# every word load and load-multiple form can write the PC (interworking branch): all of them, with the destination forced to PC in 40 % of the draws
+PC_LOADS = sorted(n for n, (d, x) in REG.items() if (x.__module__ == 'vf.ref.sem_ls' and n.startswith('LDR_')) or
+                  (x.__module__ == 'vf.ref.sem_lsm' and n.startswith(('LDM', 'POP'))))
+ROWS = BR + [r for r in EXTRA if r in REG] + [r for r in PC_LOADS if r not in EXTRA]
+
+
+def to_pc(row, w, entropy):
+    import random
+    rng = random.Random(entropy ^ 0x9C)
+    if row.name not in PC_LOADS or rng.random() >= 0.4:
+        return w
+    if 't' in row.fields and len(row.fields['t']) == 4:
+        for p_ in row.fields['t']:
+            w |= 1 << p_
+    elif 'r' in row.fields and len(row.fields['r']) == 16:
+        w |= 1 << row.fields['r'][0]
+    elif 'P' in row.fields and len(row.fields['P']) == 1:
+        w |= 1 << row.fields['P'][0]
+    return w
+
+
+def aim(rng, row, w, case):
+    if row.name in PC_LOADS:
+        from vf.props import c02, c03
+        (c03.tweak if row.name.startswith(('LDM', 'POP')) else c02.aim_base)(rng, row, w, case)
+        # the loaded words are plausible branch targets (ARM / Thumb addresses inside the code device, some misaligned)
+        import struct
+        from vf import gen
+        words = [(case['state']['R.PC'] & ~0xFF) + 4 * rng.randrange(0, 0x30) + rng.choice((0, 0, 1, 1, 2, 3)) for _ in range(gen.DATA[1] // 4)]
+        case['poke'].append([gen.DATA[0], struct.pack('<%dI' % len(words), *[x & 0xFFFFFFFF for x in words]).hex()])
 
 
 def classify(res, case):
@@ -44,7 +73,7 @@ def post_check(acc, res, case):
     return False
 
 
-PLAN = e1prop.Plan('C04', ROWS, cfgs=('v6', 'v7', 'v5', 'v4'), classify=classify, nontrivial=nontrivial, case_kw=case_kw)
+PLAN = e1prop.Plan('C04', ROWS, cfgs=('v6', 'v7', 'v5', 'v4'), classify=classify, nontrivial=nontrivial, case_kw=case_kw, tweak_word=to_pc, tweak_case=aim)
 
 
 def run(ctx):
